@@ -33,6 +33,17 @@ def run(tier, seed, replay=None):
         for c in extra:
             c["id"] = "f%d_%s" % (k, c["id"])
         cases += extra
+    corpus = []
+    for c in FW.load_corpus(PID):           # minimised past failures run first
+        m = c["model"]
+        for u in m["units"]:                # JSON turns tuples into lists
+            u["arcs"] = [tuple(a) for a in u["arcs"]]
+        m["arcs"] = [tuple(a) for a in m.get("arcs", [])]
+        m["user"] = [tuple(u) for u in m.get("user", [])]
+        for st_ in m["stops"]:
+            st_["windows"] = [tuple(w) for w in st_["windows"]]
+        corpus.append({"id": "corpus_" + str(c["id"]), "model": m, "ops": c["ops"]})
+    cases = corpus + cases
     n = len(cases)
     res, st = E.run_cases(cases, "c09_" + tier, timeout=3000)
     chk.ob("harness and model runner exit normally", st[0] == 0 and st[2] == 0, (st[1] + st[3])[-300:])
